@@ -8,7 +8,10 @@
    parse_docker.go, parse_local.go), Format("") (format.go), EnsureValid
    (url.go) and forwarding.Parse on byte strings, with one switch per defect
    ([fixes]; false = the code as it is in the repository):
-     fx_port0  an explicit port of zero is an invalid port       (repair, C38)
+     fx_port0  formatSSH prints a zero port when omitting it would
+               change how the text parses (path begins with digits
+               and ':', or the text would be a Docker URL); parsing
+               itself is unchanged                               (repair, C38)
      fx_duser  an empty Docker user name before '@' is rejected  (repair, C38)
      fx_dash   user/host/container beginning with '-' rejected   (repair, C36)
    filesystem.Normalize is a Section variable with two stated hypotheses
@@ -45,7 +48,7 @@ Theorem c38_roundtrip :
   forall (fx : fixes) (raw : str) (k : kind) (env : list (str * str)) (u : url),
     fx_port0 fx = true -> fx_duser fx = true ->
     parse normalize fx raw k env = inr u ->
-    parse normalize fx (format u) k env = inr u.
+    parse normalize fx (format fx u) k env = inr u.
 Proof. exact (parse_roundtrip normalize normalize_abs normalize_idem). Qed.
 
 (* The repaired model passes the checker that is applied to the
@@ -56,7 +59,7 @@ Theorem c38_model_passes_check :
     let out1 := parse normalize fx raw k env in
     check_C38 out1
       (match out1 with inr u => url_valid fx u | inl _ => false end)
-      (match out1 with inr u => parse normalize fx (format u) k env | inl e => inl e end) = true.
+      (match out1 with inr u => parse normalize fx (format fx u) k env | inl e => inl e end) = true.
 Proof. exact (check_C38_model_passes normalize normalize_abs normalize_idem). Qed.
 
 End C38.
@@ -91,12 +94,32 @@ Proof. exact refuted_docker_empty_user_port0_only. Qed.
 Theorem c38_refuted_duser_repair_only : refutes duser_only (B "host:0:22:foo") KSync.
 Proof. exact refuted_port_zero_duser_only. Qed.
 
-(* with the repairs the three witnesses are rejected by the parser *)
-Theorem c38_fixed_rejects_witnesses :
-  parse no_normalize fixed_all (B "host:0:22:foo") KSync [] = inl EInvalidPort
-  /\ parse no_normalize fixed_all (B "docker:0://x/y") KSync [] = inl EInvalidPort
+(* with the repairs: the port-zero witnesses parse exactly as before (upstream
+   deliberately accepts an explicit port 0) and now come back unchanged because
+   Format prints the zero port; where it is not needed it is still omitted
+   (host:00:path -> host:path); the Docker witness is rejected by the parser *)
+Theorem c38_fixed_witnesses :
+  (exists u, parse no_normalize fixed_all (B "host:0:22:foo") KSync [] = inr u
+             /\ u_port u = 0 /\ u_path u = B "22:foo"
+             /\ format fixed_all u = B "host:0:22:foo"
+             /\ parse no_normalize fixed_all (format fixed_all u) KSync [] = inr u)
+  /\ (exists u, parse no_normalize fixed_all (B "docker:0://x/y") KSync [] = inr u
+                /\ u_proto u = PSSH
+                /\ format fixed_all u = B "docker:0://x/y"
+                /\ parse no_normalize fixed_all (format fixed_all u) KSync [] = inr u)
+  /\ (exists u, parse no_normalize fixed_all (B "host:00:path") KSync [] = inr u
+                /\ format fixed_all u = B "host:path"
+                /\ parse no_normalize fixed_all (format fixed_all u) KSync [] = inr u)
   /\ parse no_normalize fixed_all (B "docker://@a@b/p") KSync [] = inl EEmptyUser.
-Proof. exact fixed_rejects_witnesses. Qed.
+Proof. exact fixed_witnesses. Qed.
+
+(* the two conditions of the format rule are independent (each witness
+   triggers exactly one of them); an empty digit run counts (path ":x") *)
+Theorem c38_format_rule_conditions_independent :
+  port_like_prefix (B "22:foo") = true /\ is_docker_url (B "host:22:foo") = false
+  /\ port_like_prefix (B "//x/y") = false /\ is_docker_url (B "docker://x/y") = true
+  /\ port_like_prefix (B ":x") = true.
+Proof. exact format_rule_conditions_independent. Qed.
 
 (* Non-vacuity: the hypotheses on Normalize are satisfiable, and with the
    repairs in place URLs of every protocol and kind do parse (a port with
@@ -109,12 +132,12 @@ Proof. exact demo_normalize_ok. Qed.
 
 Example c38_parses_nontrivial :
   (exists u, parse demo_normalize fixed_all (B "user@example.com:0022:~/proj") KSync [] = inr u
-             /\ u_port u = 22 /\ format u = B "user@example.com:22:~/proj")
+             /\ u_port u = 22 /\ format fixed_all u = B "user@example.com:22:~/proj")
   /\ (exists u, parse demo_normalize fixed_all (B "DOCKER://root@box/~C:\data") KSync
                       [(B "DOCKER_HOST", B "tcp://h:1")] = inr u
-                /\ u_path u = B "C:\data" /\ format u = B "docker://root@box/C:\data")
+                /\ u_path u = B "C:\data" /\ format fixed_all u = B "docker://root@box/C:\data")
   /\ (exists u, parse demo_normalize fixed_all (B "unix:run/s.sock") KFwd [] = inr u
-                /\ format u = B "unix:/run/s.sock")
+                /\ format fixed_all u = B "unix:/run/s.sock")
   /\ (exists u, parse demo_normalize fixed_all (B "h:tcp:localhost:80") KFwd [] = inr u
                 /\ u_proto u = PSSH).
 Proof. exact parse_examples. Qed.
@@ -128,4 +151,5 @@ Print Assumptions c38_refuted_unfixed_protocol_change.
 Print Assumptions c38_refuted_unfixed_docker_user.
 Print Assumptions c38_refuted_port0_repair_only.
 Print Assumptions c38_refuted_duser_repair_only.
-Print Assumptions c38_fixed_rejects_witnesses.
+Print Assumptions c38_fixed_witnesses.
+Print Assumptions c38_format_rule_conditions_independent.
